@@ -229,3 +229,31 @@ Proof. reflexivity. Qed.
 Example apply_conflict :
   apply_names [(0, "in_0")]%string [(0, "x"); (0, "y")]%string = inr Conflict.
 Proof. reflexivity. Qed.
+
+(* after the aliasing step (IoAlias.alias_loop_distinct) and the resolution of positional inputs
+   (IoResolve.resolve_by_index_NoDup) every renamed value occurs once in [pairs]: then the "Conflicting custom
+   names for one value" refusal cannot occur, and the first-target table is the list of pairs itself *)
+Lemma find_t_None v m : ~ In v (map fst m) -> find_t v m = None.
+Proof.
+  induction m as [|[v' t'] r IH]; simpl; intros H; [reflexivity|].
+  destruct (Nat.eqb v v') eqn:E.
+  - apply Nat.eqb_eq in E. exfalso. apply H. left. symmetry. exact E.
+  - apply IH. intros Hin. apply H. right. exact Hin.
+Qed.
+
+Lemma tbv_distinct pairs : forall acc, NoDup (map fst (acc ++ pairs)) -> tbv pairs acc = Some (acc ++ pairs).
+Proof.
+  induction pairs as [|[v t] r IH]; simpl; intros acc ND.
+  - rewrite app_nil_r. reflexivity.
+  - rewrite find_t_None.
+    + rewrite IH; rewrite <- app_assoc; simpl; [reflexivity | exact ND].
+    + rewrite map_app in ND. simpl in ND. apply NoDup_remove_2 in ND.
+      intros Hin. apply ND. apply in_or_app. left. exact Hin.
+Qed.
+
+Lemma apply_no_conflict vals pairs : NoDup (map fst pairs) -> apply_names vals pairs <> inr Conflict.
+Proof.
+  intros ND. unfold apply_names. rewrite (tbv_distinct pairs []) by exact ND. simpl.
+  destruct (negb (nodupb (map snd pairs))); [discriminate|].
+  destruct (existsb _ _); discriminate.
+Qed.
